@@ -159,32 +159,39 @@ pub fn ro_query(
         let c = *s.classes.entry((family, skel.clone())).or_insert(n);
         (c, s.calls.get(&c).cloned().unwrap_or_default())
     });
-    // hit?
-    for c in &prev {
-        if c.argvals == argvals {
-            ARENA.with(|a| {
-                let mut a = a.borrow_mut();
-                for (x, y) in c.args.iter().zip(tids.iter()) {
-                    if x != y {
-                        a.record(canon_eq(*x, *y), true);
-                    }
-                }
-            });
-            STORE.with(|s| s.borrow_mut().hits += 1);
-            return c.out_v.map(|v| SF { v, t: c.out_t });
-        }
-    }
-    // miss: record one disequality per previous call of the class
+    // compare with the previous calls of the class in order: record the comparison outcome for each,
+    // stop at the first hit
+    let mut hit: Option<Call> = None;
     ARENA.with(|a| {
         let mut a = a.borrow_mut();
         for c in &prev {
-            if let Some(k) = (0..argvals.len()).find(|k| c.argvals[*k] != argvals[*k]) {
-                if c.args[k] != tids[k] {
-                    a.record(canon_eq(c.args[k], tids[k]), false);
+            match (0..argvals.len()).find(|k| c.argvals[*k] != argvals[*k]) {
+                None => {
+                    for (x, y) in c.args.iter().zip(tids.iter()) {
+                        if x != y {
+                            a.record_kind(canon_eq(*x, *y), true, Kind::RoArg);
+                        }
+                    }
+                    hit = Some(c.clone());
+                    break;
+                }
+                Some(k) => {
+                    for j in 0..k {
+                        if c.args[j] != tids[j] {
+                            a.record_kind(canon_eq(c.args[j], tids[j]), true, Kind::RoArg);
+                        }
+                    }
+                    if c.args[k] != tids[k] {
+                        a.record_kind(canon_eq(c.args[k], tids[k]), false, Kind::RoArg);
+                    }
                 }
             }
         }
     });
+    if let Some(c) = hit {
+        STORE.with(|s| s.borrow_mut().hits += 1);
+        return c.out_v.map(|v| SF { v, t: c.out_t });
+    }
     let symbolic = tids.iter().any(|t| is_sym(*t));
     let out: Option<SF> = if !symbolic {
         STORE.with(|s| s.borrow_mut().concrete += 1);
